@@ -19,16 +19,16 @@ def recFields : List InField :=
     { name := "kids", pyName := "children", type := .list (.nonNull (.named "Rec")), default := none } ]
 
 def reg : Reg :=
-  { types := [("Int", .int), ("String", .string), ("Boolean", .boolean),
-              ("E", .enum [("A", .int 10), ("B", .str "bee")]),
-              ("Rec", .input recFields)] }
+  Reg.ofTypes [("Int", .int), ("String", .string), ("Boolean", .boolean),
+               ("E", .enum [("A", .int 10), ("B", .str "bee")]),
+               ("Rec", .input recFields)]
 
 private theorem get_input {n : String} {fs : List InField} (h : reg.get? n = some (.input fs)) : fs = recFields := by
   unfold Reg.get? at h
   split at h
   · rename_i p hp
     have hm := List.mem_of_find?_eq_some hp
-    simp [reg] at hm
+    simp [reg, Reg.ofTypes] at hm
     rcases hm with rfl | rfl | rfl | rfl | rfl <;> simp at h
     exact h.symm
   · cases h
@@ -39,14 +39,23 @@ private theorem get_enum {n : String} {vs : List (String × PV)} (h : reg.get? n
   split at h
   · rename_i p hp
     have hm := List.mem_of_find?_eq_some hp
-    simp [reg] at hm
+    simp [reg, Reg.ofTypes] at hm
     rcases hm with rfl | rfl | rfl | rfl | rfl <;> simp at h
     exact h.symm
   · cases h
 
 /-- the registry is well-formed -/
+private theorem no_custom {n : String} (h : reg.get? n = some .custom) : False := by
+  unfold Reg.get? at h
+  split at h
+  · rename_i p hp
+    have hm := List.mem_of_find?_eq_some hp
+    simp [reg, Reg.ofTypes] at hm
+    rcases hm with rfl | rfl | rfl | rfl | rfl <;> simp at h
+  · cases h
+
 theorem regOK : RegOK reg := by
-  refine ⟨?_, ?_, ?_, ?_⟩
+  refine ⟨?_, ?_, ?_, ?_, fun n pv h _ => (no_custom h).elim⟩
   · intro n fs h f hf
     cases get_input h
     simp [recFields] at hf
@@ -65,13 +74,13 @@ theorem regOK : RegOK reg := by
     cases get_input h
     decide
 
-def reg2 : Reg := { types := [("Int", .int), ("Float", .float)] }
+def reg2 : Reg := Reg.ofTypes [("Int", .int), ("Float", .float)]
 
 /-- through a variable: nested recursive object, defaults filled (fix A2), enum name → internal value,
     single value wrapped into the list, python names as keys -/
 example :
     coerceValue reg 10 (.named "Rec")
-      (.obj [("e", .str "B" none none), ("kids", .obj [("v", .int 2147483647)])]) =
+      (.obj [("e", .str "B"), ("kids", .obj [("v", .int 2147483647)])]) =
     .ok (.dict [("val", .int 1), ("enum_val", .str "bee"),
                 ("children", .list [.dict [("val", .int 2147483647), ("enum_val", .int 10)]])]) := by rfl
 
@@ -80,8 +89,8 @@ example :
     (valueFromAst reg none 10 (.named "Rec")
       (.obj [("e", .enum "B"), ("kids", .obj [("v", .int 2147483647)])])).toOption =
     (coerceValue reg 10 (.named "Rec")
-      (.obj [("e", .str "B" none none), ("kids", .obj [("v", .int 2147483647)])])).toOption :=
-  literal_variable_equiv reg none 10 _ _ _
+      (.obj [("e", .str "B"), ("kids", .obj [("v", .int 2147483647)])])).toOption :=
+  literal_variable_equiv reg (fun n _ _ h _ => (no_custom h).elim) none 10 _ _ _
     (.obj (fs := recFields) rfl
       (.cons (fun f hf hn => by
           simp [recFields] at hf
@@ -129,34 +138,65 @@ example : coerceValue reg 3 (.named "Boolean") (.list [.int 1]) = .error .coerci
 example : valueFromAst reg none 3 (.nonNull (.named "Rec")) (.obj [("zzz", .int 1)]) = .error .coercion := by rfl
 
 /-- fix X2: non-finite floats are refused at Float on both routes; a finite one passes; `int(inf)` escapes from coerce_int -/
-example : coerceValue reg2 1 (.named "Float") (.float "inf" none .inf) = .error .coercion := by rfl
-example : coerceValue reg2 1 (.named "Float") (.str "nan" none (some ("nan", none, .nan))) = .error .coercion := by rfl
-example : valueFromAst reg2 none 1 (.named "Float") (.float "1e999" .inf) = .error .coercion := by rfl
-example : coerceValue reg2 1 (.named "Float") (.float "1.5" none .finite) = .ok (.float (.text "1.5")) := by rfl
-example : coerceValue reg2 1 (.named "Int") (.float "inf" none .inf) = .error .internal := by rfl
+example : coerceValue reg2 1 (.named "Float") (.float "inf") = .error .coercion := by rfl
+example : coerceValue reg2 1 (.named "Float") (.str "nan") = .error .coercion := by rfl
+example : valueFromAst reg2 none 1 (.named "Float") (.float "1e999") = .error .coercion := by rfl
+example : coerceValue reg2 1 (.named "Float") (.float "1.5") = .ok (.float (.text "1.5")) := by rfl
+example : coerceValue reg2 1 (.named "Int") (.float "inf") = .error .internal := by rfl
 /-- a collected CoercionError does not hide a later escaping exception (`_coerce_list_value` goes on) -/
-example : coerceValue reg2 2 (.list (.named "Int")) (.list [.str "x" none none, .float "inf" none .inf]) = .error .internal := by rfl
+example : coerceValue reg2 2 (.list (.named "Int")) (.list [.str "x", .float "inf"]) = .error .internal := by rfl
 
 /-! #### the two side conditions are needed, and what the code does without them -/
 
 /-- python names that collide: both fields write the same key — the later value wins at the earlier position, and no
     dict can hold both fields (this is why `RegOK.pyNamesDistinct` is a hypothesis; the model follows the collision). -/
 def regClash : Reg :=
-  { types := [("Int", .int),
-              ("C", .input [ { name := "a", pyName := "k", type := .named "Int", default := none },
-                             { name := "b", pyName := "k", type := .named "Int", default := none } ])] }
+  Reg.ofTypes [("Int", .int),
+               ("C", .input [ { name := "a", pyName := "k", type := .named "Int", default := none },
+                              { name := "b", pyName := "k", type := .named "Int", default := none } ])]
 example : coerceValue regClash 3 (.named "C") (.obj [("a", .int 1), ("b", .int 2)]) = .ok (.dict [("k", .int 2)]) := by rfl
 example : dictOfAssignments [("x", .int 1), ("y", .int 2), ("x", .int 3)] = [("x", .int 3), ("y", .int 2)] := by rfl
 
 /-- an enum whose internal value is `None` (the suite has one: `EnumValue("NULL", None)`) puts `None` at a non-null
     position — accepted by the code, not conforming: `RegOK.enumNotNone` cannot be dropped from `variable_sound`. -/
-def regNoneEnum : Reg := { types := [("E", .enum [("NULL", .none)])] }
-example : coerceValue regNoneEnum 2 (.nonNull (.named "E")) (.str "NULL" none none) = .ok .none := by rfl
+def regNoneEnum : Reg := Reg.ofTypes [("E", .enum [("NULL", .none)])]
+example : coerceValue regNoneEnum 2 (.nonNull (.named "E")) (.str "NULL") = .ok .none := by rfl
 example : ¬ Conforms regNoneEnum (.nonNull (.named "E")) .none := by
   intro h
   cases h with
   | null h0 => simp [Ty.isNonNull] at h0
   | nonNull hn _ => simp [PV.isNone] at hn
+
+/-! #### custom scalars: the parser is a parameter -/
+
+/-- a custom scalar `Even` whose own parser accepts even integers (and hands the resolver the half), refuses everything
+    else, and whose `parse_literal` does the same on `IntValue`s -/
+def evenParse (_ : String) (v : JV) : ParseOut :=
+  match v with
+  | .int k => if k % 2 == 0 then .value (.int (k / 2)) else .refused
+  | _ => .refused
+def evenParseLiteral (_ : String) (l : Lit) : ParseOut :=
+  match l with
+  | .int k => if k % 2 == 0 then .value (.int (k / 2)) else .refused
+  | _ => .refused
+def regEven : Reg := { types := [("Even", .custom)], customParse := evenParse, customParseLiteral := evenParseLiteral }
+
+example : coerceValue regEven 2 (.list (.nonNull (.named "Even"))) (.list [.int 10, .int 4]) = .ok (.list [.int 5, .int 2]) := by rfl
+example : coerceValue regEven 2 (.named "Even") (.int 7) = .error .coercion := by rfl
+/-- the value handed on is one the scalar's own parser accepted: that is all `Conforms` says about a custom scalar -/
+example : Conforms regEven (.named "Even") (.int 5) := .custom rfl (.inl ⟨.int 10, rfl, rfl⟩)
+/-- this scalar's two parsers agree, so literal/variable equivalence holds for it … -/
+example : CustomAgree regEven := by
+  intro n j l _ hs
+  cases hs <;> simp [regEven, evenParse, evenParseLiteral]
+/-- … whereas `default_scalar` does not meet `CustomAgree` on numbers: `5` inline is the text "5", through a variable the int 5 -/
+example : ¬ CustomAgree (Reg.ofTypes [("Any", .custom)]) := by
+  intro h
+  have := h "Any" (.int 5) (.int 5) rfl .int
+  simp [Reg.ofTypes, defaultScalarParse, defaultScalarParseLiteral, ParseOut.toR, Except.toOption, pvOfJson] at this
+/-- `customNotNone` cannot be dropped: a parser answering None puts None at a non-null position -/
+def regNoneScalar : Reg := { types := [("S", .custom)], customParse := fun _ _ => .value .none, customParseLiteral := fun _ _ => .refused }
+example : coerceValue regNoneScalar 2 (.nonNull (.named "S")) (.int 1) = .ok .none := by rfl
 
 /-- argument definitions satisfying `ArgsOK` -/
 example : ArgsOK reg [ { name := "x", pyName := "x_py", type := .nonNull (.named "Int"), default := some (.int 3) },
